@@ -38,6 +38,7 @@ class Address:
         if isinstance(address, self.__class__):
             self.wc = address.wc
             self.hash_part = address.hash_part
+            self.anycast = address.anycast
             return
         if self.is_hex(address):
             return
@@ -107,11 +108,7 @@ class Address:
 
     def to_cell(self) -> Cell:
         from .builder import Builder
-        return Builder()\
-            .store_bits('100')\
-            .store_int(self.wc, 8)\
-            .store_bytes(self.hash_part)\
-            .end_cell()
+        return Builder().store_address(self).end_cell()  # writes the anycast info too
 
     # def __str__(self):
     #     return self.to_str()
